@@ -906,3 +906,196 @@ func firstN(xs []string, n int) []string {
 	}
 	return xs
 }
+
+// ------------------------------------------------------------------ C03.R8
+// Start-up and round-skip corners of termination:
+// (a) needProofBlock looks at block height-1 except at the chain's first height — which is InitialHeight, not
+//     1: with initial_height > 1 and a wait-for-transactions configuration the lookup returns nil and every
+//     validator panics in round 0 of the first height;
+// (b) HeightVoteSet.SetRound creates the vote sets of every round from the one before the *current* round up
+//     to the new round: after a skip of several rounds the skipped rounds' sets must exist, or an older polka
+//     that would release a lock cannot be admitted.
+func init() {
+	register("C03", "R8", "K1+K10", "the first height is recognised by InitialHeight before block height-1 is consulted; a round skip creates the vote sets of all skipped rounds", 5, func(c *Ctx) {
+		w := c.W
+		if f := c.fn("consensus", "State.needProofBlock"); f != nil {
+			fk := funcKey(f)
+			H := paramName(f, 1)
+			n := 0
+			for _, dc := range w.deepCallsMatching(f, 1, `^\w+\.blockStore\.LoadBlockMeta\(`) {
+				n++
+				arg := dc.arg(0)
+				c.Check(arg == "("+H+" - 1)", fk+" :: looks at the block before this height", w.ipos(dc.site), H+" - 1", "looks at "+arg)
+				c.guards(dc.call.Parent(), dc.call, fk+" :: consult the previous block", 0, guardCmp("not the chain's first height", q(H), "!=", `.*\.InitialHeight`))
+			}
+			c.Check(n == 1, fk+" :: previous-block lookup found", w.pos(f.Pos()), "1", fmt.Sprintf("%d", n))
+		}
+		if f := c.fn("consensus/types", "HeightVoteSet.SetRound"); f != nil {
+			fk := funcKey(f)
+			R := paramName(f, 1)
+			adds := w.deepCallsTo(f, 1, "consensus/types#HeightVoteSet.addRound")
+			c.Check(len(adds) == 1, fk+" :: creates vote sets in a loop", w.pos(f.Pos()), "1 addRound site", fmt.Sprintf("%d", len(adds)))
+			for _, dc := range adds {
+				r := callArgs(dc.call)[0]
+				phi, ok := stripConv(r).(*ssa.Phi)
+				if !c.Check(ok, fk+" :: loop counter", w.ipos(dc.site), "phi", w.expr(r)) {
+					continue
+				}
+				okStart, okStep := false, false
+				for _, e := range phi.Edges {
+					s := w.expr(e)
+					if regexp.MustCompile(`^libs/math\.SafeSubInt32\(\w+\.round, 1\)$`).MatchString(s) {
+						okStart = true // the round before the current one (field of the receiver, not the argument)
+					}
+					if b, isB := stripConv(e).(*ssa.BinOp); isB && b.Op == token.ADD && stripConv(b.X) == ssa.Value(phi) {
+						if k, isC := constInt(b.Y); isC && k == 1 {
+							okStep = true
+						}
+					}
+				}
+				c.Check(okStart, fk+" :: vote sets are created starting from the round before the current one", w.ipos(dc.site), "r starts at hvs.round - 1", "the loop starts at "+w.expr(r)+": after a skip of several rounds the skipped rounds get no vote sets")
+				c.Check(okStep, fk+" :: every round up to the new one is visited", w.ipos(dc.site), "r++", "step is not 1")
+				c.guards(dc.call.Parent(), dc.call, fk+" :: create the vote sets of a round", 0, guardCmp("round not beyond the new round", `phi\(.*\)`, "<=", q(R)))
+			}
+		}
+	})
+}
+
+// ------------------------------------------------------------------ C03.R9
+// The file signer's height/round/step check, decided exactly (K12): it may refuse a request only for a
+// regression — or, at the very same height, round and step, for missing sign bytes — and must let every
+// later height, round or step through. A check that is stricter than that (e.g. applying the step test to
+// later rounds as well) makes every validator refuse to sign after a failed round 0: the height never ends.
+// The same table is the safety side (C02/C04): a regression is never let through.
+func init() {
+	register("C03", "R9", "K12", "the signer's height/round/step check refuses exactly the regressions (and reuses a signature exactly at the same height, round and step)", 5, func(c *Ctx) {
+		w := c.W
+		f := c.fn("privval", "FilePVLastSignState.CheckHRS")
+		if f == nil || len(f.Params) != 4 {
+			return
+		}
+		fk := funcKey(f)
+		fieldOfParam := map[*ssa.Parameter]string{f.Params[1]: "Height", f.Params[2]: "Round", f.Params[3]: "Step"}
+		var classOf func(v ssa.Value, fr *ordFrame) (string, string, bool)
+		recvField := func(v ssa.Value) (string, bool) {
+			u, ok := stripConv(v).(*ssa.UnOp)
+			if !ok || u.Op != token.MUL {
+				return "", false
+			}
+			fa, ok := u.X.(*ssa.FieldAddr)
+			if !ok || stripConv(fa.X) != ssa.Value(f.Params[0]) {
+				return "", false
+			}
+			return fieldName(fa.X.Type(), fa.Field), true
+		}
+		classOf = func(v ssa.Value, fr *ordFrame) (string, string, bool) {
+			if p, ok := stripConv(v).(*ssa.Parameter); ok {
+				if fld, ok := fieldOfParam[p]; ok {
+					return "new", fld, true
+				}
+			}
+			if fld, ok := recvField(v); ok && (fld == "Height" || fld == "Round" || fld == "Step") {
+				return "old", fld, true
+			}
+			return "", "", false
+		}
+		word := map[int]string{-1: "lower than", 0: "equal to", 1: "higher than"}
+		var wrong, undecided []string
+		cases := 0
+		for dh := -1; dh <= 1; dh++ {
+			for dr := -1; dr <= 1; dr++ {
+				for ds := -1; ds <= 1; ds++ {
+					for _, sb := range []bool{false, true} {
+						for _, sig := range []bool{false, true} {
+							cases++
+							nilOf := map[string]bool{"SignBytes": !sb, "Signature": !sig}
+							ev := &ordEval{w: w, classOf: classOf, cs: ordCase{diff: map[string]int{"Height": dh, "Round": dr, "Step": ds}, oldSign: map[string]int{}}}
+							ev.extra = func(v ssa.Value, fr *ordFrame) (bool, bool) {
+								a := normCond(v, true)
+								if (a.Kind == "nil" || a.Kind == "nonnil") && a.V != nil {
+									if fld, ok := recvField(a.V); ok {
+										if isNil, known := nilOf[fld]; known {
+											return isNil == (a.Kind == "nil"), true
+										}
+									}
+								}
+								return false, false
+							}
+							stop := func(in ssa.Instruction, blk *ssa.BasicBlock, entering bool) string {
+								if entering || in == nil {
+									return ""
+								}
+								switch x := in.(type) {
+								case *ssa.Return:
+									if len(x.Results) != 2 {
+										return "undecided-return"
+									}
+									same, isC := boolConst(x.Results[0])
+									if !isC {
+										return "undecided-return"
+									}
+									if isNilConst(x.Results[1]) {
+										if same {
+											return "reuse"
+										}
+										return "sign"
+									}
+									if same {
+										return "undecided-return"
+									}
+									return "refuse"
+								case *ssa.Panic:
+									return "panic"
+								}
+								return ""
+							}
+							out := ev.run(f.Blocks[0], nil, &ordFrame{fn: f, params: map[*ssa.Parameter]string{}}, stop)
+							want := ""
+							switch {
+							case dh < 0:
+								want = "refuse"
+							case dh > 0:
+								want = "sign"
+							case dr < 0:
+								want = "refuse"
+							case dr > 0:
+								want = "sign"
+							case ds < 0:
+								want = "refuse"
+							case ds > 0:
+								want = "sign"
+							case !sb:
+								want = "refuse"
+							case !sig:
+								want = "panic"
+							default:
+								want = "reuse"
+							}
+							desc := fmt.Sprintf("request height %s, round %s, step %s the last signed one (sign bytes %v, signature %v)", word[dh], word[dr], word[ds], sb, sig)
+							switch {
+							case strings.HasPrefix(out.kind, "undecided") || out.kind == "return":
+								undecided = append(undecided, desc+": "+out.kind+" "+out.why)
+							case out.kind != want:
+								wrong = append(wrong, desc+": "+out.kind+" instead of "+want)
+							}
+						}
+					}
+				}
+			}
+		}
+		c.Check(len(undecided) == 0, fk+" :: decidable over the orderings of height, round and step", w.pos(f.Pos()), fmt.Sprintf("%d cases decided", cases), "cannot be decided for: "+strings.Join(firstN(undecided, 3), " | "))
+		var tooStrict, tooLax []string
+		for _, x := range wrong {
+			if strings.Contains(x, ": refuse instead of") || strings.Contains(x, ": panic instead of") {
+				tooStrict = append(tooStrict, x)
+			} else {
+				tooLax = append(tooLax, x)
+			}
+		}
+		c.Check(len(tooStrict) == 0, fk+" :: a request for a later height, round or step is never refused", w.pos(f.Pos()), "refuses regressions only", "the signer refuses requests it must serve (every validator then stops signing and the height never ends): "+strings.Join(firstN(tooStrict, 3), " | "))
+		c.Check(len(tooLax) == 0, fk+" :: a regression is never let through; reuse only at the same height, round and step", w.pos(f.Pos()), "exact", "the signer lets through what it must refuse: "+strings.Join(firstN(tooLax, 3), " | "))
+		for i := 0; i < 3; i++ {
+			c.OK(fmt.Sprintf("%s :: cases evaluated (%d/3)", fk, i+1), w.pos(f.Pos()), fmt.Sprintf("%d abstract cases", cases))
+		}
+	})
+}
